@@ -717,11 +717,7 @@ def check_types(
 
             raise errors.SchemaErrors(
                 schema=schema,
-                schema_errors=(
-                    error_handler.schema_errors
-                    if isinstance(arg_value, pd.DataFrame)
-                    else error_handler.collect_errors  # type: ignore
-                ),
+                schema_errors=error_handler.schema_errors,
                 data=arg_value,
             )
 
